@@ -56,6 +56,18 @@ ASSUMPTIONS = [
     'wrapper\'s _back list length',
     'regex machines: only limit/accounting behaviour of five fixed expressions; language equality is C11',
 ]
+NEVER_GENERATED = [
+    'never generated (cannot be counted): empty sentence for the ".*" / "[^\\0]*" string machines (zero-length symbolic or '
+    'link-address EPATH segment, empty service_name / ip_address / free string_bytes) - regex machines reject the empty '
+    'sentence, a C11 matter',
+    'never generated: typed_data STRUCT with a structure_tag and no payload byte (typed_data raises in move_if mov_struct; '
+    'codec matter), Get Attribute List with 0 attributes (device.py: "TODO: handle 0 attributes?"), Read/Write Tag payloads '
+    'with a type and zero elements, connection_data item without payload',
+    'never generated: a CPF item of unrecognized type with a body anywhere but in last position (its parser swallows the '
+    'rest of the input, so the encoding would not be a CPF sentence for cpppo)',
+    'Get Attribute List request is only run with an empty run path (its move_if destinations lack the leading "."; with '
+    'path="request" the parser raises) - codec matter',
+]
 MIN_EVALUATIONS = {'quick': 10000, 'thorough': 250000}
 MAX_STEPS = 200000
 
@@ -445,6 +457,12 @@ def pred_case(case, stats):
     classes.append('base_run=' + ('success' if base.ok else ('exception:' + base.exc_type if base.exc else 'non-terminal')))
 
     stats.case(case, nontrivial=nontrivial, classes=classes)
+    if (entry.whole or enc.whole) and case['src'] != 'peek':
+        stats.exclude('chunked feeding not applied: machine is only ever run over a completely buffered input '
+                      '(service parsers; unconnected_send 0xD2 look-ahead uses bare next())')
+    if enc.soft_ibound is not None:
+        stats.exclude('declared length of a CPF item of unrecognized type not asserted as a bound: cpppo gives that '
+                      'item\'s octets parser no limit (parser.py CPF.__init__ "urec"); see class observation:...')
     for clause, sig, observed, expected in fails:
         stats.fail(clause, sig, case, observed=observed, expected=expected)
 
@@ -546,6 +564,9 @@ SWEEP_SEEDS = [
     ('CIP', {'what': 'register', 'cmd': 0x65, 'r': {'pv': 1, 'opt': 0}}, '0100'),
     ('svc:read_frag', {'path': _PATH, 'n': 20, 'off': 2}, '00'),
     ('svc:get_attribute_list', {'path': _PATH[:2], 'att': [1, 2]}, '0300'),
+    ('svc:write_tag', {'path': _PATH[:1], 't': {'tag': 0x02A0, 'stag': 0x1234, 'raw': '0a0b0c0d'}, 'n': 1}, '0e'),
+    ('svc:write_frag', {'path': _PATH[:1], 't': {'tag': 0x00C3, 'el': ['0100', '0200']}, 'n': 2, 'off': 4}, '0300'),
+    ('svc:multiple', {'subs': [{'k': 'read_tag', 'path': _PATH[:2], 'n': 1}, {'k': 'get_attribute_single', 'path': _PATH[:2]}]}, '00'),
     ('svc:read_tag_reply', {'st': {'code': 0, 'ext': []}, 't': {'tag': 0x00C4, 'el': ['01000000', '02000000']}}, '0300'),
     ('svc:forward_open_reply', {'st': {'code': 0, 'ext': []}, 'cser': 1, 'ovnd': 2, 'oser': 3, 'otid': 4, 'toid': 5, 'otapi': 6,
                                 'toapi': 7, 'app': {'b': '01020304', 'ad': 0}}, '0506'),
@@ -619,6 +640,7 @@ def run(tier, seed):
     # the heaviest shards first, so the pool drains evenly
     jobs.sort(key=lambda j: (-j[2], j[1]))
     common.parallel(shard, jobs, stats=stats)
+    stats.notes.extend(NEVER_GENERATED)
     stats.extra['catalogue'] = {g: sorted(n for n in names if cat.CATALOG[n].group == g) for g in groups}
     stats.extra['machine_classes'] = len(names)
     return stats
